@@ -156,11 +156,13 @@ theorem emitView_mem (file row type flags : Nat) (old new : Value) (l : List Prv
 /-- the generated channel specs are consistent: one Paraver type per channel -/
 theorem specs_consistent : ∀ s ∈ allSpecs, s.pvtType.length = s.nch := by decide
 
-theorem type_mem (enabled : List Nat) (m : ModelSpec)
-    (hm : m ∈ allSpecs.filter (fun s => enabled.contains s.char)) (i : Nat) (hi : i ∈ List.range m.nch) :
-    m.pvtType.getD i 0 ∈ (allSpecs.filter (fun s => enabled.contains s.char)).flatMap (·.pvtType) := by
-  have hall : m ∈ allSpecs := (List.mem_filter.1 hm).1
-  have hlen := specs_consistent m hall
+theorem type_mem (e : Emu) (hx : ∀ s ∈ e.extra, s.pvtType.length = s.nch) (m : ModelSpec)
+    (hm : m ∈ e.specs) (i : Nat) (hi : i ∈ List.range m.nch) :
+    m.pvtType.getD i 0 ∈ e.specs.flatMap (·.pvtType) := by
+  have hlen : m.pvtType.length = m.nch := by
+    rcases List.mem_append.1 hm with h1 | h1
+    · exact specs_consistent m (List.mem_filter.1 h1).1
+    · exact hx m h1
   have hi' : i < m.pvtType.length := by rw [hlen]; exact List.mem_range.1 hi
   apply List.mem_flatMap.2
   refine ⟨m, hm, ?_⟩
@@ -171,10 +173,11 @@ theorem type_mem (enabled : List Nat) (m : ModelSpec)
     step belongs to the row of an existing thread (file 0) or CPU (file 1) —
     row = gindex + 1 — and its type is one of the types declared in the matching
     .pcf (the three fixed types plus the channel types of the enabled models). -/
-theorem records_rows_types (old new : Emu) (out : List PrvRec) (h : records old new = .ok out)
+theorem records_rows_types (old new : Emu) (hxc : ∀ s ∈ new.extra, s.pvtType.length = s.nch)
+    (out : List PrvRec) (h : records old new = .ok out)
     (r : PrvRec) (hr : r ∈ out) :
-    (r.file = 0 ∧ (∃ t ∈ new.threads, r.row = t.gindex + 1) ∧ r.type ∈ threadTypes new.enabled) ∨
-    (r.file = 1 ∧ (∃ c ∈ new.cpus, r.row = c.gindex + 1) ∧ r.type ∈ cpuTypes new.enabled) := by
+    (r.file = 0 ∧ (∃ t ∈ new.threads, r.row = t.gindex + 1) ∧ r.type ∈ threadTypes new) ∨
+    (r.file = 1 ∧ (∃ c ∈ new.cpus, r.row = c.gindex + 1) ∧ r.type ∈ cpuTypes new) := by
   unfold records at h
   obtain ⟨x, hx, l, hl, hm⟩ := collect_mem _ out h r hr
   rcases List.mem_append.1 hx with hx | hx
@@ -198,7 +201,7 @@ theorem records_rows_types (old new : Emu) (out : List PrvRec) (h : records old 
       refine ⟨a, ⟨t, ht, b⟩, ?_⟩
       rw [c]
       unfold threadTypes
-      exact List.mem_append_right _ (type_mem new.enabled m hmem i hi)
+      exact List.mem_append_right _ (type_mem new hxc m hmem i hi)
   · -- a CPU row
     right
     obtain ⟨c, hc, rfl⟩ := List.mem_map.1 hx
@@ -219,7 +222,7 @@ theorem records_rows_types (old new : Emu) (out : List PrvRec) (h : records old 
       refine ⟨a, ⟨c, hc, b⟩, ?_⟩
       rw [cc]
       unfold cpuTypes
-      exact List.mem_append_right _ (type_mem new.enabled m hmem i hi)
+      exact List.mem_append_right _ (type_mem new hxc m hmem i hi)
 
 /-- **Labels.** Every value an event table, a connect-time initialisation or a
     CPU-mux default can put on a channel with a PCF value table has a label there
